@@ -39,6 +39,7 @@ CLS = {
     'Transaction': T.Transaction, 'ShardAccount': A.ShardAccount, 'AccountBlock': A.AccountBlock, 'ImportFees': T.ImportFees,
     'MsgEnvelopeAny': T.MsgEnvelope, 'InMsg': T.InMsg, 'OutMsg': T.OutMsg, 'BlockExtra': B.BlockExtra, 'Block': B.Block,
     'ConfigParams': B.ConfigParams, 'BlockCreateStats': B.BlockCreateStats, 'McStateExtra': B.McStateExtra, 'McBlockExtra': B.McBlockExtra,
+    'ShardStateUnsplit': B.ShardStateUnsplit,
 }
 
 
